@@ -1,6 +1,7 @@
 package harness
 
 import (
+	"sync"
 	"fmt"
 	"sort"
 	"strings"
@@ -261,7 +262,18 @@ func naturalWant(x string, px bool, y string, py bool) (bool, string) {
 }
 
 // c11Padding: n listed ids that sit in no family (neutral company for a pair under test).
+var c11PadCache sync.Map // n -> []string (read-only once stored)
+
 func c11Padding(tb *Tables, n int) []string {
+	if v, ok := c11PadCache.Load(n); ok {
+		return v.([]string)
+	}
+	out := c11PaddingBuild(tb, n)
+	c11PadCache.Store(n, out)
+	return out
+}
+
+func c11PaddingBuild(tb *Tables, n int) []string {
 	var out []string
 	for _, id := range tb.Active {
 		if idShaped(id) && len(tb.Positions(id)) == 0 && !ParseVer(id).OK {
